@@ -2450,7 +2450,8 @@ bool Parser::parseInitializerListItem(InitializerSyntax*& init, InitializerListS
             return true;
 
         case SyntaxKind::CommaToken:
-            if (peek(2).kind() == SyntaxKind::CloseBraceToken) {
+            // A trailing comma belongs to the item before it; `{ , }' has none.
+            if (initList && peek(2).kind() == SyntaxKind::CloseBraceToken) {
                 initList->delimTkIdx_ = consume();
                 return true;
             }
